@@ -130,7 +130,8 @@ class ExtendedEOF(EOF):
             X_extended.append(X.shift(sample=-i))
         X_extended = xr.concat(X_extended, dim="embedding")
         n_samples_cut = (embedding - 1) * tau
-        X_extended = X_extended.isel(sample=slice(None, -n_samples_cut))
+        n_samples_kept = X_extended["sample"].size - n_samples_cut
+        X_extended = X_extended.isel(sample=slice(None, n_samples_kept))
         X_extended.coords.update({"embedding": shift})
 
         # Perform standard PCA on extended data
